@@ -96,7 +96,7 @@ def patch(pid, patchfile, tier="quick"):
     return rc
 
 
-def determinism(pids, n=40):
+def determinism(pids, n=int(os.environ.get("VERIF_DET_N", "40"))):
     """Each run index under (hashseed 0, hashseed 12345) x (two processes):
     all digests per index must agree."""
     bad = 0
